@@ -42,14 +42,19 @@ def main() -> int:
                 for h in m.setup_harnesses():
                     harness_jobs.append((m.PID, h))
         except Exception as ex:
-            print(f"[setup] {m.__name__}: {ex}")
-            rc = 1
+            print(f"[setup] WARNING {m.__name__}: {ex} (its check will report it)")
     targets = list(dict.fromkeys(targets))
     print(f"[setup] lake build of {len(targets)} targets")
     ok, out = vlib.lake_build(targets)
     print(out[-3000:])
     if not ok:
-        rc = 1
+        # A proof module that does not build is that property's business: its check reports the broken
+        # obligation. Setup only has to get everything else built, so build target by target now.
+        print("[setup] bulk build reported failures; building target by target", flush=True)
+        for t in targets:
+            ok1, out1 = vlib.lake_build([t])
+            if not ok1:
+                print(f"[setup] WARNING: {t} does not build (its check will report it): {out1[-400:]}", flush=True)
 
     def build(job):
         pid, fn = job
@@ -66,7 +71,7 @@ def main() -> int:
             pid, res = job[0], f"FAILED {type(ex).__name__}: {ex}"
         print(f"[setup] harness for {pid}: {res}", flush=True)
         if res.startswith("FAILED"):
-            rc = 1
+            print(f"[setup] WARNING: harness for {pid} does not build (its check will report it)", flush=True)
     return rc
 
 
